@@ -29,7 +29,7 @@ var c01TypedNames = []string{"int0", "false", "nil", "slice-tag", "map-tag", "sl
 
 var c01Sinks = []string{"text", "vtext", "attri", "bound", "vbind"}
 var c01Neighs = []string{"N0", "Nplain", "NentBefore", "NampAfter", "NattrEnt", "NattrLt"}
-var c01Constructs = []string{"top", "if", "else", "forroot", "forrootOuter", "forchild", "incbound", "incinterp", "slotprop", "slotnamed", "layout", "iffor"}
+var c01Constructs = []string{"top", "if", "else", "forroot", "forrootOuter", "forchild", "incbound", "incinterp", "slotprop", "slotnamed", "layout", "iffor", "slot2inc", "slot2incnamed", "forinc"}
 
 func c01NeighOK(sink, neigh string) bool {
 	switch sink {
@@ -104,6 +104,17 @@ func c01Program(sink, neigh, construct string) (Files, string) {
 	case "slotnamed":
 		f["page.vuego"] = `<div><template include="c.vuego"><template v-slot:body>` + c01Sink(sink, neigh, "v", "") + `</template></template></div>`
 		f["c.vuego"] = `<section><slot name="body"></slot></section>`
+	case "slot2inc": // an include inside plain slot content that the component uses twice
+		f["page.vuego"] = `<div><template include="s2.vuego"><template include="c.vuego" p="{{ v }}"></template></template></div>`
+		f["s2.vuego"] = `<section><slot></slot><hr><slot></slot></section>`
+		f["c.vuego"] = c01Sink(sink, neigh, "p", "")
+	case "slot2incnamed": // same through a named v-slot template, slot used in a loop
+		f["page.vuego"] = `<div><template include="s2.vuego"><template #body><template include="c.vuego" p="{{ v }}" :q="v"></template></template></template></div>`
+		f["s2.vuego"] = `<section><b v-for="i in items"><slot name="body"></slot></b><slot name="body"></slot></section>`
+		f["c.vuego"] = c01Sink(sink, neigh, "p", "")
+	case "forinc": // v-for on the include tag itself, prop interpolated from the item
+		f["page.vuego"] = `<div><template v-for="it in items" include="c.vuego" p="{{ it }}"></template></div>`
+		f["c.vuego"] = c01Sink(sink, neigh, "p", "")
 	case "layout":
 		f["page.vuego"] = "---\nlayout: l\n---\n<i>page</i>"
 		f["layouts/l.vuego"] = `<main>` + c01Sink(sink, neigh, "v", "") + `<div v-html="content"></div></main>`
